@@ -37,7 +37,7 @@ SolveLoop == s.pc = "solve" /\ ~Stop(s) /\ s' = SolveIterate(s)
 SolveStop == s.pc = "solve" /\ Stop(s) /\ s' = SolveEnd(s)
 Begin     == /\ s.pc = "dgi" /\ s.left > 0
              /\ IF s.first THEN s' = BeginFirst(s)
-                ELSE \E s1 \in {Recalced(s)} : \E e \in MaxEntries(s1.queue) : s' = BeginIter(s1, e)
+                ELSE \E s1 \in {Refilled(Recalced(s))} : \E e \in MaxEntries(s1.queue) : s' = BeginIter(s1, e)
 ObjReturns == s.pc = "eval" /\ \E z \in Admissible : s' = Eval(s, z)
 EndCall   == s.pc = "dgi" /\ s.left = 0 /\ s' = EndDGI(s)
 Next == SolveLoop \/ SolveStop \/ Begin \/ ObjReturns \/ EndCall
